@@ -490,6 +490,9 @@ pub fn run_module(drv: &mut dyn Drv, args: &RunArgs, report: &mut Report) {
             return;
         }
     }
+    if args.skip_modules.iter().any(|m| m == meta.module) {
+        return;
+    }
     if let Some(caps) = &args.only_caps {
         // capacities are given as the surplus over the published one
         if !caps.iter().any(|c| meta.max_size + c == meta.cap) {
